@@ -200,6 +200,7 @@ def _topology_case(args):
     out = []
     pairs = list(itertools.product(range(nfiles), repeat=2))
     cnt = 0
+    nt = 0
     for bits in range(lo, hi):
         edges = [p for k, p in enumerate(pairs) if bits >> k & 1]
         d = _mkdir(scratch, "top")
@@ -212,9 +213,10 @@ def _topology_case(args):
             for i in range(nfiles):
                 out += check_open(paths[i], i, nfiles, ref, case, tags)
             cnt += 1
+            nt += bool(edges)
         finally:
             shutil.rmtree(d, ignore_errors=True)
-    return cnt, out
+    return cnt, out, nt
 
 
 SHAPES = {
@@ -441,10 +443,13 @@ def run(ctx):
         "internal-behind-file", "internal-http", "internal-behind-remote")])
     viols = []
     cnt = 0
-    for n, vs in res:
-        cnt += n
-        viols.extend(vs)
-    cov = {"evaluations": cnt, "distinct_nontrivial": cnt - 2,
+    nontriv = 0
+    for r in res:
+        cnt += r[0]
+        viols.extend(r[1])
+        # identifier / restriction / remote cases all contain edges
+        nontriv += r[2] if len(r) > 2 else r[0]
+    cov = {"evaluations": cnt, "distinct_nontrivial": nontriv,
            "rule": "one case = a set of files with basin definitions; all "
                    "2^4 / 2^9 directed graphs (self-loops included) on 2 / "
                    "3 files with matching identifiers; per shape all 4^n "
@@ -472,7 +477,8 @@ def replay(case, ctx):
         pairs = list(itertools.product(range(case["nfiles"]), repeat=2))
         bits = sum(1 << k for k, p in enumerate(pairs)
                    if list(p) in [list(e) for e in case["edges"]])
-        _, vs = _topology_case((case["nfiles"], bits, bits + 1, ctx.scratch))
+        vs = _topology_case((case["nfiles"], bits, bits + 1,
+                             ctx.scratch))[1]
         return vs
     if case["kind"] == "restrict":
         _, vs = _restrict_case((case["shape"], ctx.scratch))
